@@ -85,8 +85,34 @@ func runC01(c *Ctx) {
 		}
 		e.Run()
 	}
+	// two collections in one database, created from the same Schema value: histories mixing calls
+	// on both; each collection must behave as if it were alone
+	worldTwo = true
+	for _, cfg := range []Cfg{{}, {Cache: true}, {Async: 1}, {Async: 2, Compress: true, Lower: true}} {
+		alpha := []Op{
+			{Op: "ins", V: 0, K: 0}, {Op: "ins", V: 1, K: 2}, {Op: "upd", Slot: 0, V: 3, K: 0}, {Op: "del", Slot: 0}, {Op: "delall"}, {Op: "reopen"},
+			{Op: "ins2", V: 1}, {Op: "ins2", V: 2}, {Op: "dup2", V: 3}, {Op: "upd2", V: 4}, {Op: "del2"}, {Op: "delall2"},
+		}
+		if cfg.Async != 0 {
+			alpha = append(alpha, Op{Op: "tick"}, Op{Op: "flushallc"})
+		}
+		tdepth := 4
+		if c.Tier == "thorough" {
+			tdepth = 5
+		}
+		e := &Explorer{C: c, Cfg: cfg, Prop: "C01", Alphabet: alpha, Depth: tdepth, MaxLive: 3}
+		e.Check = func(w *World) {
+			w.SweepBasic()
+			if len(w.Viol) == 0 {
+				w.SweepBasic()
+			}
+			c.Count("evaluations", 1)
+		}
+		e.Run()
+	}
+	worldTwo = false
 	c.Meta(map[string]interface{}{
-		"rule":     "(plus: histories of depth 5 (thorough 6) over 8 letters of which 3 switch cache / asynchronous writes on the live handle, same sweep.) breadth-first search over all call histories up to the stated depth from a fixed alphabet (inserts with forced key/index collisions, updates, deletes, batches, search-delete, reopen/abandon, flush family, reads as transitions) under each configuration; after every history the complete non-search read sweep (Count, All, AssignAll, Get/GetByUUID/Exist for every stored, deleted and never-stored id, twice) is compared with the reference map. A state is distinct by the canonical dump of the whole handle + file system + model; non-trivial = reached by at least one accepted write.",
+		"rule":     "(plus: two collections created from one Schema value, histories of depth 4 (thorough 5) over 12-14 letters acting on either, 4 configurations: both collections agree with their reference after every history.) (plus: histories of depth 5 (thorough 6) over 8 letters of which 3 switch cache / asynchronous writes on the live handle, same sweep.) breadth-first search over all call histories up to the stated depth from a fixed alphabet (inserts with forced key/index collisions, updates, deletes, batches, search-delete, reopen/abandon, flush family, reads as transitions) under each configuration; after every history the complete non-search read sweep (Count, All, AssignAll, Get/GetByUUID/Exist for every stored, deleted and never-stored id, twice) is compared with the reference map. A state is distinct by the canonical dump of the whole handle + file system + model; non-trivial = reached by at least one accepted write.",
 		"alphabet": alphabetC01(Cfg{}, c.Tier),
 		"configs":  cfgs,
 		"depth":    depth,
